@@ -201,6 +201,39 @@ def o_pair_argument_order(ctx):
     ctx.claim('argument-order-independent-of-residue-identity', got == ref, detail='%r vs %r' % (got, ref))
 
 
+def o_hbond_of_linked_residues(ctx):
+    """the real hydrogen_bond_interaction on a COO and a LYS group of two DIFFERENT residues that are joined through a chain of
+    k covalent bonds (isopeptide / cross-link / covalently attached hetero residue): whether the pair is excluded as 'within 4
+    bonds' follows from the bond graph alone, for every relabelling of the two residues (also one that gives them the same
+    number in different chains, or numbers that differ in the insertion code only)"""
+    import propka.energy as E
+    p = H.params()
+    ids = [ident(ctx, t) for t in ('p', 'q')]
+    ctx.assume(Not(same(ids[0], ids[1])))
+    k = ctx.choice('bonds_between_the_groups', [1, 2, 4, 5])
+    hetero = ctx.choice('second_residue_is_hetero', [False, True])
+
+    def world(idents):
+        g1 = _group('COOGroup', 'ASP', 'CG', idents[0], p=p)
+        g2 = _group('LYSGroup', 'LYS', 'NZ', idents[1], rec='hetatm' if hetero else 'atom', p=p)
+        g1.charge, g2.charge = -1, 1
+        H.set_xyz(g1.atom, 0.0, 0.0, 0.0)
+        H.set_xyz(g2.atom, 3.0, 0.0, 0.0)
+        chain = [g1.atom] + [mk_atom('C%d' % i, 'LYS', idents[1], rec='hetatm' if hetero else 'atom') for i in range(k - 1)] + [g2.atom]
+        for a, b in zip(chain, chain[1:]):
+            a.bonded_atoms.append(b)
+            b.bonded_atoms.append(a)
+        for g in (g1, g2):
+            g.num_volume = 100
+            g.set_interaction_atoms([g.atom], [g.atom])
+        return E.hydrogen_bond_interaction(g1, g2, H.version(p))
+    got = world(ids)
+    ref = world([('A', 10, ' '), ('A', 20, ' ')])
+    ctx.claim('reference-as-the-bond-graph-says', (ref is None) == (k <= 4), detail='%d bonds: %r' % (k, ref))
+    ctx.claim('hydrogen-bond-independent-of-residue-identity', (got is None) == (ref is None) and (got is None or bool(eq(got, ref))),
+              detail='%r vs %r' % (got, ref))
+
+
 def o_find_group(ctx):
     """ConformationContainer.find_group / top_up_from_atoms identify an
     atom/group across conformations by residue: match iff same residue"""
@@ -311,6 +344,10 @@ def obligations(tier):
         Obligation('O2-pair-loops', o_pair_loops, code=['propka/determinants.py:set_determinants', 'propka/coupled_groups.py:NonCovalentlyCoupledGroups.identify_non_covalently_coupled_groups'],
                    bounds='3 groups with pairwise distinct symbolic residue identities', shims=['pair handlers replaced by recorders'],
                    claim_doc='every unordered pair visited exactly once', outside=kf, max_paths=50000, shards=8, wall_s=170),
+        Obligation('O2-hydrogen-bond-of-covalently-linked-residues', o_hbond_of_linked_residues,
+                   code=['propka/energy.py:hydrogen_bond_interaction', 'propka/atom.py:Atom.is_atom_within_bond_distance', 'propka/version.py:VersionA.get_hydrogen_bond_parameters'],
+                   bounds='a COO and a LYS group (second residue ATOM or HETATM) 3 A apart, joined through 1, 2, 4 or 5 covalent bonds, both residue identities symbolic (chain, number in [-999,9999], insertion code), distinct',
+                   claim_doc='excluded iff within 4 bonds, with the same value otherwise, for every relabelling', max_paths=400),
         Obligation('O2-pair-argument-order', o_pair_argument_order, code=['propka/determinants.py:set_determinants', 'propka/determinants.py:add_determinants', 'propka/determinants.py:add_sidechain_determinants',
                                                                                  'propka/determinants.py:add_coulomb_determinants'],
                    bounds='two groups (HIS+AMD in both list orders, COO+LYS) with symbolic residue identities (chain, number in [-999,9999], insertion code)', shims=['hydrogen_bond_interaction / electrostatic_interaction -> recorders of their ordered arguments'],
